@@ -86,6 +86,9 @@ class Layout:
         pad = ' ' * indent
         style = rng.choice(['freeform', 'freeform_prose', 'google', 'google_prose', 'skipped_first'])
         lines = []
+        # blank lines right behind the opening quotes (0..3), before anything else
+        self.leading_blank = rng.choice([0, 0, 0, 1, 2, 3])
+        lines += [''] * self.leading_blank
         if style in ('freeform_prose', 'google_prose', 'skipped_first'):
             lines += [pad + 'Summary line %s.' % self.mark(), '']
             if rng.random() < 0.5:
@@ -130,7 +133,7 @@ def gen_module(rng):
         dlines, stm, style = L.docstring(indent + 4, fail)
         dpad = pad + '    '
         closing = q[-3:]
-        if rng.random() < 0.5 and not dlines[0].lstrip().startswith('>>>'):
+        if rng.random() < 0.5 and dlines[0].strip() and not dlines[0].lstrip().startswith('>>>'):
             # opening quotes share their line with the first line of text (a prompt directly behind the quotes
             # has no indentation while the following lines have: that layout falls into known finding F8b of C13)
             src.append(dpad + q + dlines[0].lstrip())
